@@ -303,3 +303,48 @@ Example c11_headers_nonvacuous :
    c11_hroute_run case (SL [SL [SL []; SZ 200; SZ 1; SB S_STAR; SZ 0]]) =
      Violates (SL [SL [SL [SB [97;61;49]%N; SB [98]%N]; SZ 200; SZ 1; SB S_STAR; SZ 1]])).
 Proof. vm_compute. repeat split; reflexivity. Qed.
+
+(* source ids, density (harness which = 14): after any get/put history the ids that exist - free or held - are pairwise
+   different, lie in [0, seq) and are exactly seq many: allocation of a fresh id and its entry into the books are ONE
+   step, so the ids handed out so far are 0 .. seq-1 and each is either free or held by one request *)
+Theorem c11_http_sourceid_dense :
+  forall ops, let p := fst (id_run idpool0 ops) in
+    NoDup (free p ++ held p) /\
+    (forall x, In x (free p ++ held p) -> 0 <= x < seq p) /\
+    seq p = Z.of_nat (length (free p) + length (held p)).
+Proof. exact http_sourceid_dense. Qed.
+Print Assumptions c11_http_sourceid_dense.
+
+(* source ids, high-water bound: on an instance on which never more than n requests were live at once ([held_le]: at
+   every point of the history at most n ids are held) no more than n ids were ever created, the held ones are pairwise
+   different and all below n - so a burst of n simultaneous requests on a fresh instance holds exactly 0 .. n-1 *)
+Theorem c11_http_sourceid_high_water :
+  forall n ops, held_le n idpool0 ops ->
+    let p := fst (id_run idpool0 ops) in
+    seq p <= Z.of_nat n /\ NoDup (held p) /\ (forall x, In x (held p) -> 0 <= x < Z.of_nat n).
+Proof. exact http_sourceid_high_water. Qed.
+Print Assumptions c11_http_sourceid_high_water.
+
+(* bursts (harness which = 14): a phase observation accepted by the judgement [burst_phase_ok] means: every request of
+   the burst was answered 200; the source ids controller.In was called with are pairwise different, one per request,
+   all in [0, hw); and the event sequences under the source ids are, up to the order of the ids, exactly the newline
+   splits of the bodies - no source id carried lines of two bodies *)
+Theorem c11_http_burst_phase_sound :
+  forall hw reqs o, burst_phase_ok hw reqs o = true ->
+    exists zs groups,
+      o = SL [SL (map (fun _ => SZ 200) reqs); SL (map SZ zs); SL groups] /\
+      NoDup zs /\ length zs = length reqs /\ (forall z, In z zs -> 0 <= z < hw) /\
+      Coq.Sorting.Permutation.Permutation (map burst_expected reqs) groups.
+Proof. exact burst_phase_sound. Qed.
+Print Assumptions c11_http_burst_phase_sound.
+
+(* non-vacuity: three simultaneous first allocations give 0 1 2 and keep the bound; two requests sharing source id 0
+   (their lines interleaved under it) are rejected, the same bodies under two ids are accepted *)
+Example c11_burst_nonvacuous :
+  snd (id_run idpool0 [Get; Get; Get]) = [Some 0; Some 1; Some 2] /\
+  held_le 3 idpool0 [Get; Get; Get; Put 1; Get] /\
+  c11_entry 14 (SL [SZ 1; SL [SL [SL [SB [65;10;65]%N]; SL [SB [66;10]%N]]]])
+               (SL [SL [SL [SL [SZ 200; SZ 200]; SL [SZ 0; SZ 1]; SL [SL [SB [66]%N]; SL [SB [65]%N; SB [65]%N]]]]]) = Agree /\
+  (exists m, c11_entry 14 (SL [SZ 1; SL [SL [SL [SB [65;10;65]%N]; SL [SB [66;10]%N]]]])
+               (SL [SL [SL [SL [SZ 200; SZ 200]; SL [SZ 0]; SL [SL [SB [65]%N; SB [66]%N; SB [65]%N]]]]]) = Violates m).
+Proof. vm_compute. repeat split; repeat econstructor. Qed.
